@@ -174,6 +174,92 @@ class ServerFacts:
                     out[verb] = [self.deco_of(d) for d in sub.decorator_list]
         return out
 
+    def worker_contexts(self):
+        """for each verb with a nested worker: the items of its `async with`, in source order
+        ("stream" = the data connection, "file" = anything else)"""
+        out = {}
+        for verb in self.verbs:
+            v = verb
+            while v in self.delegate:
+                v = self.delegate[v]
+            node = self.methods[self.method_of[v]]
+            for sub in node.body:
+                if isinstance(sub, ast.AsyncFunctionDef) and sub.name.endswith("_worker"):
+                    items = []
+                    for n in ast.walk(sub):
+                        if isinstance(n, ast.AsyncWith):
+                            for it in n.items:
+                                e = it.context_expr
+                                items.append("stream" if isinstance(e, ast.Name) and e.id == "stream" else "file")
+                    out[verb] = items
+        return out
+
+    def abor_counts_finished(self):
+        """does ABOR treat a worker task that has already finished as "something to abort"?
+        False only when the tested collection is built with a `not <w>.done()` filter; any shape the
+        translator does not recognise counts as True (the conservative answer: the proof obligation fails
+        and the failing-input search decides)."""
+        node = self.methods["abor"]
+        filtered = set()
+        for n in ast.walk(node):
+            if isinstance(n, ast.Assign) and isinstance(n.value, (ast.ListComp, ast.SetComp, ast.GeneratorExp)):
+                gen = n.value.generators[0]
+                src_ok = isinstance(gen.iter, ast.Attribute) and gen.iter.attr == "extra_workers"
+                cond_ok = any(
+                    isinstance(c, ast.UnaryOp)
+                    and isinstance(c.op, ast.Not)
+                    and isinstance(c.operand, ast.Call)
+                    and isinstance(c.operand.func, ast.Attribute)
+                    and c.operand.func.attr == "done"
+                    for c in gen.ifs
+                )
+                if src_ok and cond_ok:
+                    for t in n.targets:
+                        if isinstance(t, ast.Name):
+                            filtered.add(t.id)
+        for n in ast.walk(node):
+            if isinstance(n, ast.If):
+                t = n.test
+                if isinstance(t, ast.Name) and t.id in filtered:
+                    # the loop must cancel the same filtered collection
+                    loops = [x for x in n.body if isinstance(x, ast.For)]
+                    if loops and all(isinstance(l.iter, ast.Name) and l.iter.id in filtered for l in loops):
+                        return False
+                return True
+        return True
+
+    def passive_cancel_returns_port(self):
+        """does `_start_passive_server` put the port back when the awaited start-up is cancelled?
+        True when the try around `start_server` has a handler for CancelledError / BaseException (or a bare
+        except) whose body calls `put_nowait` and re-raises."""
+        node = self.methods["_start_passive_server"]
+        for n in ast.walk(node):
+            if isinstance(n, ast.Try):
+                awaits_start = any(
+                    isinstance(x, ast.Await) and "start_server" in ast.unparse(x) for b in n.body for x in ast.walk(b)
+                )
+                if not awaits_start:
+                    continue
+                for h in n.handlers:
+                    names = []
+                    if h.type is None:
+                        names = ["BaseException"]
+                    else:
+                        ts = h.type.elts if isinstance(h.type, ast.Tuple) else [h.type]
+                        names = [ast.unparse(t).split(".")[-1] for t in ts]
+                    if "CancelledError" in names or "BaseException" in names:
+                        puts = any(
+                            isinstance(x, ast.Call) and isinstance(x.func, ast.Attribute) and x.func.attr == "put_nowait"
+                            for b in h.body
+                            for x in ast.walk(b)
+                        )
+                        raises = any(isinstance(b, ast.Raise) and b.exc is None for b in h.body)
+                        if puts and raises:
+                            return True
+                for fb in n.finalbody:
+                    pass
+        return False
+
     def closing_codes(self):
         """for each verb: reply codes queued in the statements right before a `return False`"""
         out = {}
@@ -378,6 +464,13 @@ def gen_server():
     for v in verbs:
         lines.append("  | .%s => [%s]" % (lid(v), ", ".join(guard_lean(g) for g in ws.get(v, []))))
     lines.append("")
+    wc = F.worker_contexts()
+    lines.append("/-- items of the worker's `async with`, in source order (entered left to right, exited right to left) -/")
+    lines.append("inductive Ctx where | stream | file deriving DecidableEq, Repr")
+    lines.append("def Verb.workerContexts : Verb → List Ctx")
+    for v in verbs:
+        lines.append("  | .%s => [%s]" % (lid(v), ", ".join("." + c for c in wc.get(v, []))))
+    lines.append("")
     lines.append("/-- reply codes queued immediately before a `return False` in the handler -/")
     lines.append("def Verb.closingCodes : Verb → List Nat")
     for v in verbs:
@@ -414,6 +507,10 @@ def gen_server():
     import asyncio
 
     lines.append("def cancelledIsOSError : Bool := %s" % ("true" if issubclass(asyncio.CancelledError, OSError) else "false"))
+    lines.append("/-- ABOR counts a finished-but-unreaped worker task as something to abort -/")
+    lines.append("def aborCountsFinished : Bool := %s" % ("true" if F.abor_counts_finished() else "false"))
+    lines.append("/-- `_start_passive_server` puts the port back when the awaited start-up is cancelled -/")
+    lines.append("def passiveCancelReturnsPort : Bool := %s" % ("true" if F.passive_cancel_returns_port() else "false"))
     lines.append("def cancelledIsException : Bool := %s" % ("true" if issubclass(asyncio.CancelledError, Exception) else "false"))
     C = sys.modules["aioftp.common"]
     lines.append("")
